@@ -150,3 +150,23 @@ def gen_siblings(rng: random.Random, delay_ms: int = 25) -> Dict[str, Any]:
                        "features": {f"s{i}": {"inputs": [rng.choice(["a", "b"])], "c0": i, "coefs": [rng.choice([1, 2])]}}})
         req.append(f"s{i}")
     return {"groups": groups, "request": req, "delay_ms": delay_ms}
+
+
+def gen_option_groups(rng: random.Random) -> Dict[str, Any]:
+    """A root whose data depends on a group option (two option values), consumer groups on the same or another framework,
+    each requested for ONE option value: the producer is computed once per option group."""
+    rcfw = rng.choice(CFWS[:2])
+    vals = ["train", "test"]
+    n = rng.randrange(2, 4)
+    by_opt = {v: {"a": [rng.randrange(0, 50) for _ in range(n)], "b": [rng.randrange(0, 50) for _ in range(n)]} for v in vals}
+    groups: List[Dict[str, Any]] = [{"name": "R0", "kind": "root", "cfw": rcfw, "cols": by_opt["train"], "cols_by_opt": by_opt,
+                                     "opt_key": "split"}]
+    req = []
+    k = rng.randrange(2, 4)
+    for i in range(k):
+        ccfw = rng.choice(CFWS[:2])
+        ins = rng.sample(["a", "b"], rng.randrange(1, 3))
+        groups.append({"name": f"C{i}", "kind": "derived", "cfw": ccfw,
+                       "features": {f"c{i}": {"inputs": ins, "c0": i, "coefs": [rng.choice([1, 2]) for _ in ins]}}})
+        req.append({"name": f"c{i}", "opt": {"split": vals[i % 2]}})
+    return {"groups": groups, "request": req}
